@@ -71,6 +71,21 @@ def run_until(case):
             "classes": classes}
 
 
+def run_cond(case):
+    """conditions as waiters: a failed operand is handled by a condition only if that condition forwards the failure; an operand
+    failing after the condition was decided (or beside a sibling that decided it) is nobody's business and must make step() raise"""
+    from . import c05
+    info = c05.run_case(case)
+    keep = ("operand fails first", "operand fails after trigger", "same-instant operands", "nested")
+    classes = [c for c in info["classes"] if c in keep]
+    return {"nontrivial": "operand fails first" in classes or "operand fails after trigger" in classes, "classes": classes}
+
+
+def cond_strategy(tier):
+    from . import c05
+    return c05.strategy(tier)
+
+
 PROP = Property(
     "C02",
     rule=("Generated kernel programs emphasising wiring (several waiters per event: processes and harness callbacks, "
@@ -82,11 +97,16 @@ PROP = Property(
           "step() raises iff the harness predicts the failure unhandled (both directions), same type/args, at that "
           "instant. Non-trivial = some processed event had >=2 waiters AND some failed event was processed. "
           "Facet until_event: the same programs driven through run(until=<shared event|process>) calls; every waiter of the "
-          "until-event - registered before or after the call - must be invoked once, in order, when it is processed."),
+          "until-event - registered before or after the call - must be invoked once, in order, when it is processed. "
+          "Facet condition_waiters: programs whose processes wait on all_of/any_of trees with failing operands; the same W(E) "
+          "oracle with conditions as waiters: a condition handles an operand's failure only by failing itself, so an operand "
+          "failing after the condition was decided still has to make step() raise."),
     facets=[Facet("programs", strategy, run_case, quick=3000, thorough=20000,
                   essential=["multi-waiter", "already-processed yield", "double trigger", "unhandled failure raises",
                              "child raises -> joiner", "callback+process waiters"]),
             Facet("until_event", until_strategy, run_until, quick=1200, thorough=8000,
-                  essential=["until-event with later waiters", "until-event with earlier waiters"])],
+                  essential=["until-event with later waiters", "until-event with earlier waiters"]),
+            Facet("condition_waiters", cond_strategy, run_cond, quick=1500, thorough=8000,
+                  essential=["operand fails first", "operand fails after trigger"])],
     assumptions=["exceptions are compared by type name and args", "state of an environment after step() raised is not judged"],
 )
